@@ -143,6 +143,10 @@ impl PrivateKey {
 
     // #[cfg_attr(all(feature = "wasm-bindgen-keypair"), wasm_bindgen(js_name = fromRandom))]
     pub fn from_random() -> PrivateKey {
+        #[cfg(feature = "verif-hooks")]
+        if let Some(key) = crate::verif_hooks::take_random_key().and_then(|b| PrivateKey::from_bytes_impl(&b).ok()) {
+            return key;
+        }
         let secret_key = k256::SecretKey::random(&mut OsRng);
 
         PrivateKey {
